@@ -529,6 +529,13 @@ class ProgGen:
                         name = ["lit", nm]
                 data_alias = rng.choice(["d", "e"]) if rng.random() < 0.3 else None
                 default_alias = rng.choice(["f", "g"]) if rng.random() < 0.3 else None
+                if self.flavour == "scope":
+                    # aliases may collide with ordinary variable names: inside the fill the alias must win
+                    # (only the data alias: a colliding *default* alias read by the slot's own default content
+                    # recurses for ever in django mode - same mechanism as the listed finding
+                    # C03-default-alias-content-sees-fill-scope, kept out of the random workload)
+                    if data_alias and rng.random() < 0.5:
+                        data_alias = rng.choice(VAR_NAMES)
                 if self.flavour == "scope" and self.in_between:
                     # {{ default }} under a with/for between tag and fill: listed finding, shown by its witness
                     default_alias = None
